@@ -10,6 +10,8 @@ impl OsFile {
     // and appends at the end of the file (pwrite(2), BUGS) - the positional contract below holds only
     // for descriptors opened without it
     pub uninterp spec fn append_mode(&self) -> bool;
+    // the open call was allowed to CREATE the file when it did not exist (O_CREAT)
+    pub uninterp spec fn may_have_created(&self) -> bool;
     // std::os::unix::fs::FileExt::write_all_at
     #[verifier::external_body]
     pub fn write_all_at(&mut self, buf: &Bytes, offset: u64) -> (r: Result<(), VErr>)
@@ -84,12 +86,12 @@ impl Creator {
 
 // tokio::fs::OpenOptions as configured by the `setup` closure of File::from_file
 // (`truncate`: an existing file is cut to length 0 when it is opened)
-pub struct OpenMode { pub create: bool, pub append: bool, pub truncate: bool }
+pub struct OpenMode { pub create: bool, pub append: bool, pub truncate: bool, pub write: bool, pub read: bool }
 // setup(&mut OpenOptions::new()).open(path) + try_into_std(): the descriptor has the configured mode;
 // metadata().len() is the current length of the file
 #[verifier::external_body]
 pub fn os_open(mode: OpenMode) -> (r: Result<OsFile, VErr>)
-    ensures r.is_ok() ==> r->Ok_0.append_mode() == mode.append && r->Ok_0.durable_len() == r->Ok_0.content().len()
+    ensures r.is_ok() ==> r->Ok_0.append_mode() == mode.append && r->Ok_0.may_have_created() == mode.create && r->Ok_0.durable_len() == r->Ok_0.content().len()
         && (mode.truncate ==> r->Ok_0.content().len() == 0)
 { unimplemented!() }
 #[verifier::external_body]
